@@ -275,6 +275,11 @@ class DictList(list):
         other : iterable
             other must contain only unique id's present in the list
         """
+        other = list(other)
+        # make sure every removal will succeed before removing anything
+        indices = [self.index(item) for item in other]
+        if len(set(indices)) != len(indices):
+            raise ValueError("an element is listed twice for removal")
         for item in other:
             self.remove(item)
         return self
